@@ -111,6 +111,19 @@ def numericNotEqual (a b : D) : Bool := if D.eq a b then false else !isclose a b
 
 abbrev Str := List Nat   -- code points
 
+/-- payload of a Date10 / DateTime10 / Time object (years 1..9999): `year` = `_year` (the year of the
+local date), `t` = the local wall-clock reading of `_dt` in seconds since 0001-01-01T00:00:00,
+`tz` = the explicit timezone offset in minutes (none = no timezone).  xs:time values sit on 2000-01-01. -/
+structure DT where
+  year : Int
+  t : Int
+  tz : Option Int
+  deriving DecidableEq, Repr, Inhabited
+
+/-- the instant on the UTC timeline; a missing timezone is read as UTC
+(datetime.py:284-291 `replace(tzinfo=_UTC_TIMEZONE)`, `todelta`) -/
+def DT.inst (d : DT) : Int := d.t - 60 * d.tz.getD 0
+
 inductive Atom where
   | int (v : Int)                    -- Python int (xs:integer)
   | dec (q : Rat)                    -- decimal.Decimal (finite)
@@ -121,7 +134,7 @@ inductive Atom where
   | bool (b : Bool)
   | uri (s : Str)                    -- AnyURI (value already whitespace-collapsed)
   | qn (ns pre loc : Str)            -- QName(uri, 'pre:loc' or 'loc')
-  | date (t : Int) | dtm (t : Int) | time (t : Int)   -- Date10/DateTime10/Time, no timezone, year 1..9999: `t` orders `_dt`
+  | date (v : DT) | dtm (v : DT) | time (v : DT)   -- Date10 / DateTime10 / Time, year 1..9999
   | dur (m s : Int) | ymd (m : Int) | dtd (s : Int)   -- Duration(months, seconds) and its two subclasses
   | hex (b : List Nat) | b64 (b : List Nat)           -- decoded octets
   deriving DecidableEq, Repr, Inhabited
@@ -346,7 +359,7 @@ def Atom.isDT : Atom → Bool | .date _ => true | .dtm _ => true | .time _ => tr
 def Atom.isBin : Atom → Bool | .hex _ => true | .b64 _ => true | _ => false
 def Atom.durVal : Atom → Int × Int
   | .dur m s => (m, s) | .ymd m => (m, 0) | .dtd s => (0, s) | _ => (0, 0)
-def Atom.dtVal : Atom → Int | .date t => t | .dtm t => t | .time t => t | _ => 0
+def Atom.dt : Atom → DT | .date v => v | .dtm v => v | .time v => v | _ => ⟨0, 0, none⟩
 def Atom.binVal : Atom → List Nat | .hex b => b | .b64 b => b | _ => []
 /-- `QName.qname` -/
 def qnameStr (pre loc : Str) : Str := if pre.isEmpty then loc else pre ++ [58] ++ loc
@@ -405,6 +418,15 @@ def subclassFirst : Atom → Atom → Bool
   | .dur .., .ymd _ => true
   | .dur .., .dtd _ => true
   | _, _ => false
+
+/-- datetime.py:277-291, the tail of `_compare` for years 1..9999: different `_year` — within two
+years the instants (`todelta()`), otherwise the year numbers; same `_year` — the `_dt` values, a naive
+one read as UTC when the other has a timezone (for two naive or two aware values that is the order of
+the instants as well) -/
+def dtCompare (op : Op) (x y : DT) : Bool :=
+  if x.year ≠ y.year then
+    if x.year - y.year ≤ 2 ∧ y.year - x.year ≤ 2 then iCmp op x.inst y.inst else iCmp op x.year y.year
+  else iCmp op x.inst y.inst
 
 mutual
 /-- `type(a).__op__(a, b)`: the special method of the class of `a`. -/
@@ -498,7 +520,7 @@ def dunder (m : Mode) (op : Op) (a b : Atom) (fuel : Nat) : PyR :=
         | .time _, .date _ | .date _, .time _ => op.isEqNe
         | .dtm _, .date _ | .date _, .dtm _ => op.isOrd
         | _, _ => false
-      if clash then .typeErr else .ok (iCmp op a.dtVal b.dtVal)
+      if clash then .typeErr else .ok (dtCompare op a.dt b.dt)
     else if op = .eq then .ok false
     else if op = .ne then .ok true
     else .typeErr
